@@ -11,7 +11,8 @@ V_METAS = [{"version": "1"}, {"version": "2.0"}, {"version": ""}]
 PROBES = [{"scope": {"k": "all"}, "env": [[bl("PATH"), bl("/p")], [bl("X"), bl("x0")]]},
           {"scope": {"k": "build"}, "env": [[bl("PATH"), bl("/p")], [bl("CPATH"), bl("")]]},
           {"scope": {"k": "launch"}, "env": []},
-          {"scope": {"k": "process", "p": bl("web")}, "env": [[bl("X"), bl("x0")]]}]
+          {"scope": {"k": "process", "p": bl("web")}, "env": [[bl("X"), bl("x0")]]},
+          {"scope": {"k": "process", "p": bl("web.worker")}, "env": []}]
 
 
 def gen_result(rng, m):
@@ -21,7 +22,7 @@ def gen_result(rng, m):
     if rng.random() < 0.75:
         ins = []
         for _ in range(rng.randint(0, 4)):
-            s = rng.choice([{"k": "all"}, {"k": "build"}, {"k": "launch"}, {"k": "process", "p": bl(rng.choice(["web", "w2"]))}])
+            s = rng.choice([{"k": "all"}, {"k": "build"}, {"k": "launch"}, {"k": "process", "p": bl(rng.choice(["web", "w2", "web.worker", "web.low"]))}])
             ins.append({"s": s, "b": rng.choice(list(BEH_COQ)), "n": bl(rng.choice(["PATH", "X", "Y_Z", "app.name", "app.port", ".hid"])), "v": bl(rng.choice(["", "v", "/a:/b"]))})
     progs = {}
     for _ in range(rng.choice([0, 0, 1, 2])):
@@ -67,7 +68,7 @@ class C02(C01):
             "programs (incl. a missing source), 0..3 SBOMs with repeated formats and 0..2 plain files written below the "
             "layer dir; test-side tampering with <layer>.toml and the lifecycle restore between builds as in C01. "
             "Observed: callback log with arguments (create also reports whether the dir was empty), result, returned "
-            "LayerData (types, metadata, env applied to 4 probes), the abstracted layers directory after every call. "
+            "LayerData (types, metadata, env applied to 5 probes incl. a dotted process type), the abstracted layers directory after every call. "
             "non-trivial = a callback ran on an existing layer.")
     trusted_base = C01.trusted_base + ["LayerEnv probes: returned env is compared through LayerEnv::apply on fixed probe environments (C04's model)"]
     assumptions = ["metadata returned by callbacks deserialises as the layer's metadata type (Rust's type system); "
